@@ -162,7 +162,7 @@ let step (st : state) (op : string) (args : string list) : string * state =
   | Sk s, "reset", [] -> ("-", Sk (sk_reset s))
   | Sk s, "clear", [] -> ("-", Sk (sk_clear s))
   (* ---- bloom ---- *)
-  | _, "blnew", [ entries; locs ] -> ("-", Bl (bl_new (n_of_string entries) (n_of_string locs)))
+  | _, "blnew", entries :: locs :: _ -> ("-", Bl (bl_new (n_of_string entries) (n_of_string locs)))
   | Bl b, "add", [ h ] -> (
       match bl_add b (n_of_string h) with Some b' -> ("-", Bl b') | None -> ("panic", Dead "bl_add"))
   | Bl b, "has", [ h ] -> (
